@@ -610,6 +610,9 @@ Theorem C01K_jnp_power_prerepair_model_correct : forall sb x n, 0 < snd sb ->
   prerepair_integer_pow sb x n = jax_integer_pow sb x n.
 Proof. exact prerepair_integer_pow_correct. Qed.
 Print Assumptions C01K_jnp_power_prerepair_model_correct.
+Theorem C01K_integer_pow0_repaired_correct : forall sb x, 0 < snd sb -> repaired_integer_pow0 sb x = jax_integer_pow sb x 0.
+Proof. exact repaired_integer_pow0_correct. Qed.
+Print Assumptions C01K_integer_pow0_repaired_correct.
 (* composition of kernel graphs (what tie (e) checks the real multi-equation exports against) *)
 Theorem C01K_composition_of_graphs : forall e args xs, kok (length args) e ->
   kev_s (ksubst e args) xs = kev_s e (map (fun a => kev_s a xs) args).
